@@ -607,12 +607,20 @@ func (f *fragment) row(rowID uint64) *Row {
 // (updating the cache).
 func (f *fragment) unprotectedRow(rowID uint64) *Row {
 	r, ok := f.rowCache.Fetch(rowID)
-	if ok && r != nil {
-		return r
+	if !ok || r == nil {
+		r = f.rowFromStorage(rowID)
+		f.rowCache.Add(rowID, r)
 	}
 
-	row := f.rowFromStorage(rowID)
-	f.rowCache.Add(rowID, row)
+	// The cached row is handed to every reader of this row. Return a copy
+	// whose segments are not writable, so a caller that changes its row gets
+	// a bitmap of its own first (ensureWritable) and the cache keeps
+	// matching storage.
+	row := &Row{segments: make([]rowSegment, len(r.segments))}
+	for i := range r.segments {
+		row.segments[i] = r.segments[i]
+		row.segments[i].writable = false
+	}
 	return row
 }
 
